@@ -3,6 +3,7 @@ import StepModel.ComplexBuild
 import StepModel.ComplexSafeTop
 import StepModel.ComplexSemHead
 import StepModel.ComplexForest3
+import StepModel.ComplexInit
 /-!
 # C08 — complex instances are accepted exactly when the supertype constraints allow them
 
@@ -251,6 +252,16 @@ the emitted tree exactly when it is legal -/
 theorem C08_eval_legal_example (X : List Name) (h2 : ∃ a ∈ X, ∃ b ∈ X, a ≠ b) :
     evalB exOneofAndorTree [] X = true ↔ Legal exOneofAndor X = true :=
   C08_eval_legal_partial exForest exAgree 50 exOneofAndorTree C08_collectOf_example X h2
+
+-- ------------------------------------------------------------------ EntNode::sort (renamed parts)
+/-- with strict comparisons in `lastSmaller` (the source before fixes/C08-2) two equal names make `EntNode::sort`
+dereference NULL: request list `a a c b` (replayed on the real code by the sort stream once the finding is listed) -/
+theorem C08_sort_strict_crash_witness : sortNodesWith false [0, 0, 2, 1] = .crash .sortNullChunk := by decide +kernel
+
+/-- with non-strict comparisons the same list is sorted -/
+theorem C08_sort_nonstrict_example : sortNodesWith true [0, 0, 2, 1] = .ok [0, 0, 1, 2] ∧
+    sortNodesWith true [3, 1, 3, 0, 2] = .ok [0, 1, 2, 3, 3] ∧ sortNodesWith false [3, 1, 4, 0, 2] = .ok [0, 1, 2, 3, 4] := by
+  decide +kernel
 
 /-- the full statement `eval ⟷ Legal` is false with several supertypes: the diamond's tree derives `{a, b, d}` -/
 theorem C08_eval_legal_witness_multi :
